@@ -9,7 +9,7 @@ static J degenerate_query(Chooser &ch, const g::GW &w, std::string &kind)
 {
   const g::Frame &f = w.fr;
   const g::FM *m = w.feats.empty() ? nullptr : &w.feats[ch.index(w.feats.size())];
-  const int k = static_cast<int>(ch.range(0, 11));
+  const int k = static_cast<int>(ch.range(0, 12));
   auto depth_of = [&](const g::FM &mm) { return ch.pick<double>({0.0, mm.dmin, mm.dmax, 0.5 * (mm.dmin + mm.dmax), std::nextafter(mm.dmax, 0.0), mm.dmin + 1e-9}); };
   if (m && k == 0 && !m->coords.empty())
     {
@@ -72,6 +72,22 @@ static J degenerate_query(Chooser &ch, const g::GW &w, std::string &kind)
       const double a = m ? m->kernel[0] : 0, b = m ? m->kernel[1] : 0;
       return g::make_query(f, a, b, ch.pick<double>({f.H, 0.0, f.H - 1e-9, -1.0}));
     }
+  if (k == 11)
+    {
+      // exactly on a mid-oceanic ridge (age zero) of a model that has one
+      std::vector<std::array<double, 2>> ridge_pts;
+      std::function<void(const J &)> walk = [&](const J &o) {
+        if (o.is_obj()) { for (auto &kv : o.o) { if (kv.first == "ridge coordinates") { for (auto &rd : kv.second.a) for (size_t i = 0; i < rd.size(); ++i) { ridge_pts.push_back({{rd[i][0].num(), rd[i][1].num()}}); if (i + 1 < rd.size()) ridge_pts.push_back({{0.5 * (rd[i][0].num() + rd[i + 1][0].num()), 0.5 * (rd[i][1].num() + rd[i + 1][1].num())}}); } } else walk(kv.second); } }
+        else if (o.is_arr()) for (auto &e : o.a) walk(e);
+      };
+      walk(w.root);
+      if (!ridge_pts.empty())
+        {
+          kind = "on-ridge";
+          const auto &p = ridge_pts[ch.index(ridge_pts.size())];
+          return g::make_query(f, p[0], f.sph ? std::max(-89.0, std::min(89.0, p[1])) : p[1], ch.pick<double>({0.0, 0.0, 1e3, 10e3, 50e3}));
+        }
+    }
   if (m && k == 10)
     {
       kind = "feature-depth-limits";
@@ -87,7 +103,7 @@ static J gen_total(Chooser &ch)
   g::Opt o;
   o.min_features = 1; o.max_features = 4;
   o.operations = true; o.model_ranges = true; o.global_constants = ch.chance(30); o.force_surface = true;
-  o.water = true;
+  o.water = true; o.depth_surfaces = true;
   g::GW w = g::gen_world(ch, o);
   J c = J::obj();
   c["world"] = w.root.dump();
